@@ -19,7 +19,7 @@ for p in ['C02','C03','C04','C05','C06','C07','C08','C09','C10','C11','C12','C13
     na(p,'check not registered yet (machinery under construction in this round; see DESIGN.md §5 for the design)')
 exec(open('/verif/scripts/manifest_table.py').read()) if __import__('os').path.exists('/verif/scripts/manifest_table.py') else None
 m=dict(version=1,setup_cmd='./setup.sh',
- hooks=dict(guard='verif',enable='go build -tags verif (plus avfs_setostype for C05/C13/C17 and for the Windows-typed workers of C07/C15, -race for C08): ./check does it',
+ hooks=dict(guard='verif',enable='go build -tags verif (plus avfs_setostype for C05/C13/C17 and for the Windows-typed workers of C07/C15/C16, -race for C08): ./check does it',
    baseline_off_cmd='/verif/scripts/baseline_off.sh',source_commits=hook_commits,add_only=True),
  engines=[dict(name='vcheck',path='/verif/harness',serves_properties=sorted(C),kind_free_text='Go harness: workload generators, kernel/twin/model oracles, lock-hook scheduler, race-detector driver')],
  checks=[C[k] for k in sorted(C)],
